@@ -184,7 +184,7 @@ class ShareFile:
         else:
             with open(self.home, 'rb') as f:
                 filesize = os.path.getsize(self.home)
-                (version, unused, num_leases) = struct.unpack(">LLL", f.read(0xc))
+                (version, data_length, num_leases) = struct.unpack(">LLL", f.read(0xc))
             self._schema = schema_from_version(version)
             if self._schema is None:
                 raise UnknownImmutableContainerVersionError(filename, version)
@@ -195,8 +195,20 @@ class ShareFile:
                     "share file %r is %d bytes long, too short for the %d leases its header claims"
                     % (filename, filesize, num_leases))
             self._num_leases = num_leases
-            self._lease_offset = filesize - (num_leases * self.LEASE_SIZE)
-            self._length = filesize - 0xc - (num_leases * self.LEASE_SIZE)
+            # The lease records follow the share data.  Normally that is
+            # where filesize - num_leases*LEASE_SIZE points, but a crash
+            # between the separate writes of add_lease() (append the record,
+            # then update the count) or cancel_lease() (update the count,
+            # then truncate) leaves a file that is one record longer than its
+            # lease count says, which used to shift the boundary into the
+            # leases.  The (saturating) share-data-length header field says
+            # where the data ends, so prefer it whenever it is usable.
+            if (data_length < 2**32 - 1 and
+                0xc + data_length + num_leases * self.LEASE_SIZE <= filesize):
+                self._lease_offset = 0xc + data_length
+            else:
+                self._lease_offset = filesize - (num_leases * self.LEASE_SIZE)
+            self._length = self._lease_offset - 0xc
 
         self._data_offset = 0xc
 
